@@ -2,8 +2,9 @@ package main
 
 import (
 	"bytes"
-	"encoding/json"
 	"encoding/hex"
+	"encoding/json"
+	"errors"
 	"fmt"
 	"io"
 	"os"
@@ -32,6 +33,35 @@ const readSlack = 2
 type Case struct {
 	Schema   string `json:"schema"`
 	InputHex string `json:"input_hex"`
+	// FaultAfter: after the input bytes the input reader fails persistently (a non-EOF error on
+	// every further call) instead of reporting io.EOF.  Omitted when false, so the keys of the
+	// cases recorded before this field existed are unchanged.
+	FaultAfter bool `json:"fault_after,omitempty"`
+}
+
+// faultReader hands out data in chunks and then fails for ever.
+type faultReader struct {
+	data  []byte
+	pos   int
+	chunk int
+}
+
+var errInputFault = errors.New("verif: input reader fault (persistent)")
+
+func (f *faultReader) Read(p []byte) (int, error) {
+	if f.pos >= len(f.data) {
+		return 0, errInputFault
+	}
+	n := len(f.data) - f.pos
+	if f.chunk > 0 && n > f.chunk {
+		n = f.chunk
+	}
+	if n > len(p) {
+		n = len(p)
+	}
+	copy(p, f.data[f.pos:f.pos+n])
+	f.pos += n
+	return n, nil
 }
 
 func mkCase(schema, input []byte) Case {
@@ -41,18 +71,18 @@ func (c Case) input() []byte { b, _ := hex.DecodeString(c.InputHex); return b }
 
 // Outcome is what one run of the implementation on a case showed.
 type Outcome struct {
-	SchemaAccepted bool   `json:"schema_accepted"`
-	SchemaErr      string `json:"schema_err,omitempty"`
-	Stage          string `json:"stage"`          // where the run ended: NewSchema | NewTransform | Read
-	Fail           string `json:"fail,omitempty"` // "", panic, hang, no-terminal
-	Site           string `json:"site,omitempty"` // top non-runtime frame (function name) of a panic
-	Panic          string `json:"panic,omitempty"`
+	SchemaAccepted bool     `json:"schema_accepted"`
+	SchemaErr      string   `json:"schema_err,omitempty"`
+	Stage          string   `json:"stage"`          // where the run ended: NewSchema | NewTransform | Read
+	Fail           string   `json:"fail,omitempty"` // "", panic, hang, no-terminal
+	Site           string   `json:"site,omitempty"` // top non-runtime frame (function name) of a panic
+	Panic          string   `json:"panic,omitempty"`
 	Stack          []string `json:"stack,omitempty"`
-	Reads          int    `json:"reads"`
-	Records        int    `json:"records"`
-	Failed         int    `json:"failed"` // ErrTransformFailed results
-	Terminal       string `json:"terminal,omitempty"` // EOF | fatal | newtransform-error
-	TerminalErr    string `json:"terminal_err,omitempty"`
+	Reads          int      `json:"reads"`
+	Records        int      `json:"records"`
+	Failed         int      `json:"failed"`             // ErrTransformFailed results
+	Terminal       string   `json:"terminal,omitempty"` // EOF | fatal | newtransform-error
+	TerminalErr    string   `json:"terminal_err,omitempty"`
 }
 
 // Signature identifies a failure for minimisation: same kind of failure at the same place.
@@ -235,10 +265,25 @@ func ExecSchema(schema []byte, extra customfuncs.CustomFuncs, deadline time.Dura
 
 // ExecInput runs NewTransform and the Read loop of an accepted schema on a finite input.
 func ExecInput(s omniparser.Schema, input []byte, deadline time.Duration) *Outcome {
-	curCase.Store(mkCase(s.Content(), input))
-	noteInflight(mkCase(s.Content(), input))
+	return execInput(s, input, false, deadline)
+}
+
+// ExecInputFault: the same over an input reader that fails persistently after the input bytes.
+func ExecInputFault(s omniparser.Schema, input []byte, deadline time.Duration) *Outcome {
+	return execInput(s, input, true, deadline)
+}
+
+func execInput(s omniparser.Schema, input []byte, fault bool, deadline time.Duration) *Outcome {
+	cc := mkCase(s.Content(), input)
+	cc.FaultAfter = fault
+	curCase.Store(cc)
+	noteInflight(cc)
 	return watch(&Outcome{Stage: "NewTransform", SchemaAccepted: true}, deadline, func(o *Outcome, pg *progress) {
-		t, err := s.NewTransform("i", bytes.NewReader(input), &transformctx.Ctx{ExternalProperties: map[string]string{"e": "ext"}})
+		var rd io.Reader = bytes.NewReader(input)
+		if fault {
+			rd = &faultReader{data: input, chunk: 1 + len(input)%7}
+		}
+		t, err := s.NewTransform("i", rd, &transformctx.Ctx{ExternalProperties: map[string]string{"e": "ext"}})
 		pg.tick.Store(time.Now().UnixNano())
 		if err != nil {
 			o.Terminal, o.TerminalErr = "newtransform-error", err.Error()
@@ -280,16 +325,16 @@ func Exec(c Case, extra customfuncs.CustomFuncs, deadline time.Duration) *Outcom
 	if s == nil {
 		return o
 	}
-	return ExecInput(s, c.input(), deadline)
+	return execInput(s, c.input(), c.FaultAfter, deadline)
 }
 
 // ---- memory watchdog ----------------------------------------------------------------------------
 // A runaway worker cannot be stopped; when the heap passes memLimit the process records the case
 // that was running (onBlowup) and exits before the kernel kills it.
 var (
-	curCase   atomic.Value // Case
-	onBlowup  func(c Case, heap uint64)
-	memLimit  = uint64(3) << 30
+	curCase  atomic.Value // Case
+	onBlowup func(c Case, heap uint64)
+	memLimit = uint64(3) << 30
 )
 
 func startMemWatch() {
